@@ -402,6 +402,11 @@ def native(seed=0):
     return bad, n
 
 
+def replay_scope(unit, obl):
+    """the native replay of this property searches per unit, not per obligation (composite parameters: per obligation)"""
+    return (obl or {}).get("name", "") if unit.startswith("CompositeParameter") else "unit"
+
+
 def replay(unit, obl):
     if unit.startswith("CompositeParameter"):
         from checks import c16
